@@ -185,11 +185,13 @@ def join_aux(source_name, source_key, source_delete,  # noqa: C901
     fields = fix_fields(fields)
     source_key = KeyCalc(source_key)
     target_key = KeyCalc(target_key) if target_key is not None else target_key
+    # The key index and the expanded field mapping belong to ONE run (see func below).
     # We will store db keys as boolean flags:
     # - False -> inserted/not used
     # - True -> inserted/used
-    db_keys_usage = KVFile()
-    db = KVFile()
+    fields_spec = fields
+    db_keys_usage = None
+    db = None
 
     # Mode of join operation
     if full is not None:
@@ -376,6 +378,13 @@ def join_aux(source_name, source_key, source_delete,  # noqa: C901
         datapackage['resources'] = new_resources
 
     def func(package: PackageWrapper):
+        # every run starts from an empty key index and the field mapping as specified: what an
+        # earlier run of this step left behind (a failed run does not get to close its index)
+        # must not be aggregated on, and a '*' is expanded for the package of THIS run
+        nonlocal fields, db, db_keys_usage
+        fields = copy.deepcopy(fields_spec)
+        db_keys_usage = KVFile()
+        db = KVFile()
         process_datapackage(package.pkg.descriptor)
         yield package.pkg
         yield from new_resource_iterator(package)
